@@ -11,6 +11,8 @@ H.append({"name":"H_resume","tiers":Q,"scale":"b2","bounds":"B=2, MaxDataOp=3: t
   "param_sets":grid([0,1],[0,1],[0],range(0,8),[0,2],[ALWAYS],[1])})
 H.append({"name":"H_resume","tiers":Q,"scale":"b2","bounds":"a region of the old file that moves forward by exactly the size of the fresh bytes before it (new[n+x] == old[x]): two sizes, fresh and overlay bowls, checkpoints 0..5, lag 0",
   "param_sets":grid([2,3],[0,1],[0],range(0,6),[0],[ALWAYS],[1])})
+H.append({"name":"H_resume","tiers":Q,"scale":"b2","bounds":"a build pair with every kind of bowl bookkeeping (rename, duplication, in-place patch, brand-new file, deleted file, dirs and symlink added/removed): fresh and overlay bowls, checkpoints 0..7, lag 0/1",
+  "param_sets":grid([4],[0,1],[0],range(0,8),[0,1],[ALWAYS],[1])})
 H.append({"name":"H_resume","tiers":Q,"scale":"b2","bounds":"optimized patches (bsdiff series; concrete distinct contents), fresh and overlay bowls, checkpoints 0..4, lag 0..1",
   "param_sets":grid([10,11],[0,1],[1],range(0,5),[0,1],[ALWAYS],[0])})
 H.append({"name":"H_resume","tiers":Q,"scale":"b2","bounds":"chains of two interruptions: the run resumed from checkpoint keep is itself stopped at its keep2-th checkpoint and a third process finishes; rsync (symbolic) and bsdiff (concrete) series, fresh and overlay bowls",
